@@ -7,6 +7,8 @@ import GMGDriver.TransferDrv
 import GMGDriver.TraceDrv
 import GMGDriver.GridGenDrv
 import GMGDriver.SchedDrv
+import GMGDriver.ParDrv
+import GMGDriver.OptionsDrv
 
 def main (args : List String) : IO UInt32 := do
   match args with
@@ -18,9 +20,12 @@ def main (args : List String) : IO UInt32 := do
   | ["smooth"] => OpsDrv.smoothMain
   | ["direct"] => OpsDrv.directMain
   | ["matrix"] => OpsDrv.matrixMain
+  | ["rhs"] => OpsDrv.rhsMain
   | ["transfer"] => TransferDrv.main
   | ["trace"] => TraceDrv.main
   | ["gridgen"] => GridGenDrv.main
+  | ["par"] => ParDrv.main
+  | ["options"] => OptionsDrv.main
   | ["sched", a, b] => SchedDrv.main a.toNat! b.toNat!
   | _ => do
     IO.eprintln "usage: gmgdriver <grid|tridiag|lu|...>  (reads the harness line protocol on stdin)"
